@@ -4,6 +4,7 @@ import (
 	"fmt"
 	"go/token"
 	"go/types"
+	"sort"
 	"strings"
 
 	"golang.org/x/tools/go/ssa"
@@ -73,9 +74,9 @@ func ruleI7(c *Ctx) {
 		n++
 		key := "(starlark.Int).get: small-arm return"
 		proven := ""
-		for _, pc := range pathConds(r.Block()) {
-			cv, neg := stripNot(pc.If.Cond)
-			taken := pc.Branch != neg
+		for _, pf := range pathFacts(r.Block()) {
+			cv, neg := pf.Cond, false
+			taken := pf.Truth != neg
 			if call, ok := cv.(*ssa.Call); ok && call.Call.StaticCallee() != nil && call.Call.StaticCallee().Name() == "isSmall" && taken {
 				proven = "isSmall(x)"
 			}
@@ -182,6 +183,166 @@ var i4Exceptions = map[string]string{
 func ruleI4(c *Ctx) {
 	targets := map[string]string{"AsInt32": "err", "AsInt": "err1", "NumberToInt": "err", "Int64": "ok", "Uint64": "ok"}
 	n := 0
+	derived := map[*ssa.Function]bool{} // helpers with results (..., ok bool) that answer ok=false when a narrowing fails: their callers owe the same test
+	var site func(fn *ssa.Function, call *ssa.Call, cal *ssa.Function, kind string)
+	site = func(fn *ssa.Function, call *ssa.Call, cal *ssa.Function, kind string) {
+		n++
+		key := fmt.Sprintf("%s: %s failure", fnName(fn), cal.Name())
+		pos := c.P.Pos(call.Pos())
+		// locate the failure flag and its If
+		var flag ssa.Value
+		if kind == "err1" {
+			flag = call // single error result
+		} else {
+			want := 1
+			for _, r := range *call.Referrers() {
+				if ex, ok := r.(*ssa.Extract); ok && ex.Index == want {
+					flag = ex
+				}
+			}
+		}
+		if flag == nil {
+			c.viol(key, pos, "the failure indication of "+cal.Name()+" is discarded: an out-of-range value would be used as if the conversion had succeeded")
+			return
+		}
+		var failBlocks []*ssa.BasicBlock
+		returnedDirectly := false
+		var visitFlag func(v ssa.Value)
+		visitFlag = func(v ssa.Value) {
+			for _, r := range *v.Referrers() {
+				switch x := r.(type) {
+				case *ssa.If:
+					// flag used directly as condition (ok): false edge is failure
+					if x.Cond == v {
+						if kind == "ok" {
+							failBlocks = append(failBlocks, x.Block().Succs[1])
+						}
+					}
+				case *ssa.UnOp:
+					if x.Op == token.NOT {
+						for _, r2 := range *x.Referrers() {
+							if ifi, ok := r2.(*ssa.If); ok && kind == "ok" {
+								failBlocks = append(failBlocks, ifi.Block().Succs[0])
+							}
+						}
+					}
+				case *ssa.BinOp:
+					if _, neq, ok := nilTest(x); ok && kind != "ok" {
+						for _, r2 := range *x.Referrers() {
+							if ifi, ok := r2.(*ssa.If); ok {
+								if neq {
+									failBlocks = append(failBlocks, ifi.Block().Succs[0])
+								} else {
+									failBlocks = append(failBlocks, ifi.Block().Succs[1])
+								}
+							}
+						}
+					}
+				case *ssa.Return:
+					returnedDirectly = true // `return x, err` propagates the error
+				case *ssa.Phi:
+					// ok && cond chains: follow the phi's use as a condition
+					visitFlag(x)
+				case *ssa.Store:
+					// *result, err = AsInt32(v): stored to a named result / variable; treat as propagated if the variable is an error result
+					returnedDirectly = true
+				}
+			}
+		}
+		visitFlag(flag)
+		if len(failBlocks) == 0 {
+			if returnedDirectly {
+				c.ok(key, pos, "failure is propagated to the caller as is")
+			} else {
+				c.viol(key, pos, "the failure indication of "+cal.Name()+" is never tested")
+			}
+			return
+		}
+		// `valid := err == nil && 0 <= r && r <= max; if !valid { return error }`: the failing edge enters
+		// a block whose boolean phi is a constant on that edge and decides the block's own branch
+		for i, fb := range failBlocks {
+			for hops := 0; hops < 3; hops++ {
+				if len(fb.Instrs) == 0 {
+					break
+				}
+				ifi, isIf := fb.Instrs[len(fb.Instrs)-1].(*ssa.If)
+				if !isIf {
+					break
+				}
+				cv, neg := stripNot(ifi.Cond)
+				phi, isPhi := cv.(*ssa.Phi)
+				if !isPhi || phi.Block() != fb {
+					break
+				}
+				// all constant edges of the phi agree, and the failing edge is one of them
+				val, have, mixed := false, false, false
+				for ei, e := range phi.Edges {
+					k, isK := e.(*ssa.Const)
+					if !isK || k.Value == nil {
+						continue
+					}
+					// only edges that can be the failing one: predecessors that test the flag
+					pred := fb.Preds[ei]
+					if len(pred.Instrs) == 0 {
+						continue
+					}
+					pif, ok := pred.Instrs[len(pred.Instrs)-1].(*ssa.If)
+					if !ok {
+						continue
+					}
+					uses := false
+					for y := range backSlice(pif.Cond) {
+						if y == flag {
+							uses = true
+						}
+					}
+					if !uses {
+						continue
+					}
+					v := k.Value.String() == "true"
+					if have && v != val {
+						mixed = true
+					}
+					val, have = v, true
+				}
+				if !have || mixed {
+					break
+				}
+				if val != neg {
+					fb = fb.Succs[0]
+				} else {
+					fb = fb.Succs[1]
+				}
+				failBlocks[i] = fb
+			}
+		}
+		for _, fb := range failBlocks {
+			if ok, why := failsWithError(fb, fn, 0, map[*ssa.BasicBlock]bool{}); !ok {
+				// a fallback that recomputes with the un-narrowed value (fast path / exact path) is not a silent answer
+				if usesWide(fb, call.Call.Args[0], map[*ssa.BasicBlock]bool{}, 0) {
+					c.ok(key, pos, "on failure the computation falls back to the un-narrowed value (fast path / exact path)")
+					return
+				}
+				if i4HelperNotOK(fb, fn) {
+					derived[fn] = true
+					c.ok(key, pos, "the enclosing helper reports the failure through its own ok result; its callers are checked in turn")
+					return
+				}
+				if i4PredicateFalse(fb, fn) {
+					c.ok(key, pos, "a predicate with a single bool result answers false when the value does not fit: a number outside the Go int range is not a member / does not qualify")
+					return
+				}
+				if r, isEx := i4Exceptions[key]; isEx && r != "" {
+					c.except(key, pos, r)
+				} else {
+					c.viol(key, pos, fmt.Sprintf("when %s fails (value out of range) execution continues to an ordinary result (%s): the built-in answers silently instead of failing", cal.Name(), why))
+				}
+				return
+			}
+		}
+		c.ok(key, pos, "the failing edge returns an error")
+	}
+	var derivedDone = map[*ssa.Function]bool{}
 	for _, fn := range c.P.Funcs {
 		if !isProdPkg(fnPkgPath(fn)) {
 			continue
@@ -207,157 +368,31 @@ func ruleI4(c *Ctx) {
 			if inIntFiles(c.P, fn) {
 				return // the Int implementation itself
 			}
-			n++
-			key := fmt.Sprintf("%s: %s failure", fnName(fn), cal.Name())
-			pos := c.P.Pos(call.Pos())
-			// locate the failure flag and its If
-			var flag ssa.Value
-			if kind == "err1" {
-				flag = call // single error result
-			} else {
-				want := 1
-				for _, r := range *call.Referrers() {
-					if ex, ok := r.(*ssa.Extract); ok && ex.Index == want {
-						flag = ex
-					}
-				}
-			}
-			if flag == nil {
-				c.viol(key, pos, "the failure indication of "+cal.Name()+" is discarded: an out-of-range value would be used as if the conversion had succeeded")
-				return
-			}
-			var failBlocks []*ssa.BasicBlock
-			returnedDirectly := false
-			var visitFlag func(v ssa.Value)
-			visitFlag = func(v ssa.Value) {
-				for _, r := range *v.Referrers() {
-					switch x := r.(type) {
-					case *ssa.If:
-						// flag used directly as condition (ok): false edge is failure
-						if x.Cond == v {
-							if kind == "ok" {
-								failBlocks = append(failBlocks, x.Block().Succs[1])
-							}
-						}
-					case *ssa.UnOp:
-						if x.Op == token.NOT {
-							for _, r2 := range *x.Referrers() {
-								if ifi, ok := r2.(*ssa.If); ok && kind == "ok" {
-									failBlocks = append(failBlocks, ifi.Block().Succs[0])
-								}
-							}
-						}
-					case *ssa.BinOp:
-						if _, neq, ok := nilTest(x); ok && kind != "ok" {
-							for _, r2 := range *x.Referrers() {
-								if ifi, ok := r2.(*ssa.If); ok {
-									if neq {
-										failBlocks = append(failBlocks, ifi.Block().Succs[0])
-									} else {
-										failBlocks = append(failBlocks, ifi.Block().Succs[1])
-									}
-								}
-							}
-						}
-					case *ssa.Return:
-						returnedDirectly = true // `return x, err` propagates the error
-					case *ssa.Phi:
-						// ok && cond chains: follow the phi's use as a condition
-						visitFlag(x)
-					case *ssa.Store:
-						// *result, err = AsInt32(v): stored to a named result / variable; treat as propagated if the variable is an error result
-						returnedDirectly = true
-					}
-				}
-			}
-			visitFlag(flag)
-			if len(failBlocks) == 0 {
-				if returnedDirectly {
-					c.ok(key, pos, "failure is propagated to the caller as is")
-				} else {
-					c.viol(key, pos, "the failure indication of "+cal.Name()+" is never tested")
-				}
-				return
-			}
-			// `valid := err == nil && 0 <= r && r <= max; if !valid { return error }`: the failing edge enters
-			// a block whose boolean phi is a constant on that edge and decides the block's own branch
-			for i, fb := range failBlocks {
-				for hops := 0; hops < 3; hops++ {
-					if len(fb.Instrs) == 0 {
-						break
-					}
-					ifi, isIf := fb.Instrs[len(fb.Instrs)-1].(*ssa.If)
-					if !isIf {
-						break
-					}
-					cv, neg := stripNot(ifi.Cond)
-					phi, isPhi := cv.(*ssa.Phi)
-					if !isPhi || phi.Block() != fb {
-						break
-					}
-					// all constant edges of the phi agree, and the failing edge is one of them
-					val, have, mixed := false, false, false
-					for ei, e := range phi.Edges {
-						k, isK := e.(*ssa.Const)
-						if !isK || k.Value == nil {
-							continue
-						}
-						// only edges that can be the failing one: predecessors that test the flag
-						pred := fb.Preds[ei]
-						if len(pred.Instrs) == 0 {
-							continue
-						}
-						pif, ok := pred.Instrs[len(pred.Instrs)-1].(*ssa.If)
-						if !ok {
-							continue
-						}
-						uses := false
-						for y := range backSlice(pif.Cond) {
-							if y == flag {
-								uses = true
-							}
-						}
-						if !uses {
-							continue
-						}
-						v := k.Value.String() == "true"
-						if have && v != val {
-							mixed = true
-						}
-						val, have = v, true
-					}
-					if !have || mixed {
-						break
-					}
-					if val != neg {
-						fb = fb.Succs[0]
-					} else {
-						fb = fb.Succs[1]
-					}
-					failBlocks[i] = fb
-				}
-			}
-			for _, fb := range failBlocks {
-				if ok, why := failsWithError(fb, fn, 0, map[*ssa.BasicBlock]bool{}); !ok {
-					// a fallback that recomputes with the un-narrowed value (fast path / exact path) is not a silent answer
-					if usesWide(fb, call.Call.Args[0], map[*ssa.BasicBlock]bool{}, 0) {
-						c.ok(key, pos, "on failure the computation falls back to the un-narrowed value (fast path / exact path)")
-						return
-					}
-					if i4PredicateFalse(fb, fn) {
-						c.ok(key, pos, "a predicate with a single bool result answers false when the value does not fit: a number outside the Go int range is not a member / does not qualify")
-						return
-					}
-					if r, isEx := i4Exceptions[key]; isEx && r != "" {
-						c.except(key, pos, r)
-					} else {
-						c.viol(key, pos, fmt.Sprintf("when %s fails (value out of range) execution continues to an ordinary result (%s): the built-in answers silently instead of failing", cal.Name(), why))
-					}
-					return
-				}
-			}
-			c.ok(key, pos, "the failing edge returns an error")
+			site(fn, call, cal, kind)
 		})
+	}
+	for round := 0; round < 3; round++ {
+		var todo []*ssa.Function
+		for h := range derived {
+			if !derivedDone[h] {
+				derivedDone[h] = true
+				todo = append(todo, h)
+			}
+		}
+		sort.Slice(todo, func(i, j int) bool { return fnName(todo[i]) < fnName(todo[j]) })
+		for _, h := range todo {
+			for _, fn := range c.P.Funcs {
+				if !isProdPkg(fnPkgPath(fn)) {
+					continue
+				}
+				fn := fn
+				eachInstr(fn, func(in ssa.Instruction) {
+					if call, ok := in.(*ssa.Call); ok && call.Call.StaticCallee() == h {
+						site(fn, call, h, "ok")
+					}
+				})
+			}
+		}
 	}
 	if n < 20 {
 		c.anchorFail("only %d narrowing call sites found", n)
@@ -455,9 +490,9 @@ func ruleI3(c *Ctx) {
 			divisor := call.Call.Args[1]
 			// dominating test: y.Sign() == 0 false / != 0 true on the same value
 			okDom := false
-			for _, pc := range pathConds(call.Block()) {
-				cv, neg := stripNot(pc.If.Cond)
-				taken := pc.Branch != neg
+			for _, pf := range pathFacts(call.Block()) {
+				cv, neg := pf.Cond, false
+				taken := pf.Truth != neg
 				b, ok := cv.(*ssa.BinOp)
 				if !ok {
 					continue
@@ -496,9 +531,9 @@ func ruleI3(c *Ctx) {
 						chain = append(chain, x.X)
 					}
 				}
-				for _, pc := range pathConds(call.Block()) {
-					cv, neg := stripNot(pc.If.Cond)
-					taken := pc.Branch != neg
+				for _, pf := range pathFacts(call.Block()) {
+					cv, neg := pf.Cond, false
+					taken := pf.Truth != neg
 					b, ok := cv.(*ssa.BinOp)
 					if !ok || (b.Op != token.EQL && b.Op != token.NEQ) {
 						continue
@@ -692,6 +727,29 @@ func usesWide(b *ssa.BasicBlock, wide ssa.Value, seen map[*ssa.BasicBlock]bool, 
 }
 
 // i4PredicateFalse: fn returns exactly one bool, and the failing block returns the constant false.
+// i4HelperNotOK: the failing edge makes the enclosing function return with its last result, a bool, false.
+func i4HelperNotOK(fb *ssa.BasicBlock, fn *ssa.Function) bool {
+	res := fn.Signature.Results()
+	if res.Len() < 2 {
+		return false
+	}
+	if bt, ok := res.At(res.Len() - 1).Type().Underlying().(*types.Basic); !ok || bt.Kind() != types.Bool {
+		return false
+	}
+	for hops := 0; hops < 3 && len(fb.Instrs) > 0; hops++ {
+		switch x := fb.Instrs[len(fb.Instrs)-1].(type) {
+		case *ssa.Return:
+			k, ok := x.Results[len(x.Results)-1].(*ssa.Const)
+			return ok && k.Value != nil && k.Value.String() == "false"
+		case *ssa.Jump:
+			fb = fb.Succs[0]
+		default:
+			return false
+		}
+	}
+	return false
+}
+
 func i4PredicateFalse(fb *ssa.BasicBlock, fn *ssa.Function) bool {
 	res := fn.Signature.Results()
 	if res.Len() != 1 {
